@@ -139,7 +139,7 @@ def meta_edit(e, g):
   c2 = rng.choice(cols)
   t = rng.choice(tabs)
   name = lambda: rng.choice(gen.NAMES)
-  formula = lambda: rng.choice(gen.FORMULAS)
+  formula = lambda: g.formula_for(c["formula"])
   typ = lambda: rng.choice(gen.NEW_TYPES + ["Ref:Nope", "Text", "Int"])
   k = rng.randrange(20)
   if k in (6, 8, 13) and rng.random() < 0.7:
